@@ -203,7 +203,7 @@ def sentinel(w):
 
 def run(tier, seed):
     rep = Report("C07", tier, seed, "exploration")
-    n, nsteps = (100, 30) if tier == "quick" else (5000, 40)
+    n, nsteps = (500, 30) if tier == "quick" else (5000, 40)
     rep.rule = ("random histories of insert batches / DELETE WHERE p / compaction passes / reopen on 1-2 tables (primary key "
                 "first, in the middle, or none; low-cardinality data so compaction picks dictionary encoding) over 4 layouts; "
                 "distinct non-trivial = histories in which at least one compaction merged row-sets after a delete removed rows")
